@@ -50,7 +50,7 @@ let op_of (s : string) : nat * iop =
   | ["O"; d; id; vx] -> (nat_of_int (int_of_string d), OpReplaceObj (n_of_int (int_of_string id), hx_of vx))
   | "X" :: d :: _ -> (nat_of_int (int_of_string d), OpDestroy)
   | "W" :: d :: _ -> (nat_of_int (int_of_string d), OpObserve)
-  | "J" :: d :: _ -> (nat_of_int (int_of_string d), OpObserve)
+  | "J" :: d :: _ -> (nat_of_int (int_of_string d), OpJson)
   | _ -> failwith ("op " ^ s)
 
 let res_str = function ROk -> "ok" | RSkip -> "skip" | RLogic -> "!L"
